@@ -8,6 +8,11 @@ import Tmv.Model.CommitVerify
     light chain=<c> bid=<..> h=<int>                     -> verdict
     trusting chain=<c> num=<uint64> den=<uint64>         -> verdict
 
+`vals` and `commit` lines may carry `via=proto` (and `vals` a `tvp=<int64>`): the Go side then passes
+the value through ToProto -> wire bytes (with `tvp` written into total_voting_power) -> FromProto
+before use. The stream only emits this for values that decode, and for the model decoding is the
+identity (a decoded set IS the set, whatever total the wire claimed), so the tokens are ignored here.
+
 `<sig>` says what the signature really is: `V~key~chain~type~h~r~hash~total~pshash~ts` = a genuine
 signature by key `key` over that canonical vote; `F~…` (bit-flipped), `J` (junk), `E` (empty),
 `S` (short) never verify. -/
